@@ -538,14 +538,24 @@ class Bromelia:
         application_id = request.header.application_id
 
         config = self.associations[application_id].app.config
-        avps = [
-                    SessionIdAVP(request.session_id_avp.data),
+        #: The request is echoed as far as it goes: it may lack a Session-Id
+        #: or say nothing about its origin.
+        avps = list()
+
+        if request.has_avp("session_id_avp"):
+            avps.append(SessionIdAVP(request.session_id_avp.data))
+
+        avps += [
                     ResultCodeAVP(DIAMETER_UNABLE_TO_COMPLY),
                     OriginHostAVP(config["LOCAL_NODE_HOSTNAME"]),
-                    OriginRealmAVP(config["LOCAL_NODE_REALM"]),
-                    DestinationRealmAVP(request.origin_realm_avp.data),
-                    DestinationHostAVP(request.origin_host_avp.data)
+                    OriginRealmAVP(config["LOCAL_NODE_REALM"])
         ]
+
+        if request.has_avp("origin_realm_avp"):
+            avps.append(DestinationRealmAVP(request.origin_realm_avp.data))
+
+        if request.has_avp("origin_host_avp"):
+            avps.append(DestinationHostAVP(request.origin_host_avp.data))
 
         return DiameterAnswer(header=request.header, avps=avps)
 
